@@ -303,6 +303,14 @@ class C08:
         if len(receivers) == 1:
             recv = receivers.pop()
             apps = [e for e in apps if e.term[1][1] == recv]
+        # every entry of the list that carries the matches must be one the rules below can read: an append of something else
+        # (a tuple of results, a helper's record) to the same list means the matches are produced in a form not modelled here
+        if apps:
+            recv_ = apps[0].term[1][1]
+            unread = [e for e in s.calls if e.term[1][0] == "attr" and e.term[1][1] == recv_ and e.term[1][2] in ("append", "extend", "insert") and e not in apps]
+            if unread:
+                ctx.undec("R08.7", site, f"the list of matches also receives entries in a form the rules do not read: {show(unread[0].term)[:90]}")
+                return None
         loops = {e.loops[-1] for e in apps if e.loops}
         if len(loops) != 1 or not apps:
             ctx.undec("R08.7", site, f"cannot find the single loop that appends matches ({len(apps)} appends in {len(loops)} loops)")
